@@ -34,6 +34,7 @@ def gen_requests(rng, n=None):
         team = names[0] if r < 0.65 else names[1]
         version = 18 if rng.random() < 0.8 else rng.choice(BAD_VERSIONS)
         reqs.append({'seat': seat, 'team': team, 'version': version,
+                     'linger': rng.random() < 0.3,
                      'kind': rng.choice(('scripted', 'scripted', 'bundled')),
                      'style': gen.gen_style(rng), 'seed': rng.randrange(1 << 30)})
     return reqs
@@ -58,6 +59,9 @@ class Director:
         self.q = prims.SimQueue()
         self.seated = {}
         self.fillers = 0
+        # opened when the table is complete (or cannot become so): lingering rejected requesters
+        # hang up only then
+        self.release = prims.SimEvent()
 
     def on_verdict(self, pl):
         self.q.put((pl.name, pl.seat, pl.team, pl.verdict))
@@ -95,6 +99,7 @@ class Director:
                 # an acceptable request was refused: leave it to the oracle; stop filling to
                 # avoid looping
                 break
+        self.release.set()
 
 
 def spawn_requesters(sim, scn, run):
@@ -118,7 +123,8 @@ def spawn_requesters(sim, scn, run):
                 gates[pos].set()
         pl = session.make_player(scn, rq['seat'], rq, role, team=rq['team'],
                                  version=rq['version'], on_verdict=d.on_verdict,
-                                 pre_connect=pre, post_connect=post)
+                                 pre_connect=pre, post_connect=post,
+                                 linger_gate=d.release if rq.get('linger') else None)
         pl.is_filler = False
         run.players.append(pl)
         sim.spawn(pl.run, role, proc=role)
